@@ -20,7 +20,7 @@ DRVSRC := $(wildcard drivers/*.cc)
 DRVBIN := $(patsubst drivers/%.cc,$(B)/$(F)/%,$(DRVSRC))
 
 .PHONY: lib all setup clean drivers
-.SECONDARY:
+.SECONDARY: $(patsubst drivers/%.cc,$(B)/$(F)/drv/%.o,$(DRVSRC))
 lib: $(B)/$(F)/libtmcg.a $(MCOBJ)
 all: $(DRVBIN)
 
